@@ -18,6 +18,7 @@ import (
 	"github.com/nspcc-dev/neofs-node/pkg/local_object_storage/shard/mode"
 	"github.com/nspcc-dev/neofs-sdk-go/object"
 	oid "github.com/nspcc-dev/neofs-sdk-go/object/id"
+	"github.com/nspcc-dev/neofs-node/internal/zzverif/simfs"
 	"verif/simkit"
 )
 
@@ -284,7 +285,7 @@ func runC14(r *simkit.R) {
 func propC43() *simkit.Property {
 	return &simkit.Property{
 		ID: "C43", Level: "exploration", Bubble: true, TapeLimit: 3000,
-		Rule: "each run = one shard and 4-12 mode switches among read-write, read-only, degraded and degraded read-only with injected component failures (blob storage close/open, write-cache switch, metabase file unavailable) so that transitions stop half-way; after every attempt put/get/mark probes are compared with the accept/reject table of the mode the shard REPORTS (docs/shard-modes.md); finally a fault-free switch to read-write must succeed and every object acknowledged earlier must be intact and a new write must work. distinct = trace digest; non-trivial = >=1 switch failed half-way",
+		Rule: "each run = one shard and 4-12 mode switches among read-write, read-only, degraded and degraded read-only with injected component failures (blob storage close/open, write-cache switch, metabase file unavailable) so that transitions stop half-way; after every attempt put/get/mark probes are compared with the accept/reject table of the mode the shard REPORTS (docs/shard-modes.md); fault-free switches in about a third of the cases run concurrently with 1-2 operations (put, garbage mark, read) that start while the switch holds the mode lock in the middle of its component sequence or are in flight when it arrives (lock acquisitions and component close/switch calls are seeded scheduling points): each must be accepted/rejected as the mode before or the mode after prescribes and must finish; finally a fault-free switch to read-write must succeed and every object acknowledged earlier must be intact and a new write must work. distinct = trace digest; non-trivial = >=1 switch failed half-way",
 		Run:  runC43,
 		Assumptions: []string{"accept/reject table from docs/shard-modes.md: read-write accepts all; read-only and degraded read-only reject modifications, reads work; degraded accepts puts to blob storage, rejects metadata operations"},
 		Components:  shardComponents,
@@ -299,7 +300,11 @@ type modeFaults struct {
 func runC43(r *simkit.R) {
 	cfg := drawShCfg(r, 2)
 	nreg := 4 + r.Intn(3)
+	// (acquisitions of the shard's mode lock are scheduling points: operations overlap switches)
+	r.OnCleanup(func() { simfs.InstallRW(nil) })
 	w := newShWorld(r, cfg, nreg+2)
+	w.k.Eligible = simfs.RWEligible
+	simfs.InstallRW(w.k)
 	w.layoutSimple(nreg, 0, 0, func() int { return []int{40, 250, 700, 2500}[r.Intn(4)] })
 	for id := range w.u.IDs {
 		w.u.Specs[id].Exp = -1
@@ -308,6 +313,8 @@ func runC43(r *simkit.R) {
 	r.OnCleanup(func() { w.close() })
 	r.Logf("config %s", cfg)
 	acked := map[int]bool{}
+	prev, prevClean := mode.ReadWrite, true
+	everMarked := false
 	for i := 0; i < 2+r.Intn(3); i++ {
 		op := &shOp{kind: "put", id: r.Intn(nreg - 1)}
 		w.seqOp(op)
@@ -344,7 +351,39 @@ func runC43(r *simkit.R) {
 		}
 		w.mf = fl
 		var err error
-		w.exclusive("setmode", func() { err = w.sh.SetMode(m) })
+		var cops []*shOp
+		if fl == (modeFaults{}) && !hidden && prevClean && r.Bool(35) {
+			// operations overlapping the switch: started while the switch holds the mode lock in the
+			// middle of its component sequence, or in flight when the switch arrives
+			other := nreg + (1 - (scratch - nreg))
+			for n := 1 + r.Intn(2); n > 0; n-- {
+				switch r.Intn(3) {
+				case 0:
+					cops = append(cops, &shOp{kind: "put", id: other})
+				case 1:
+					cops = append(cops, &shOp{kind: "mark", id: other})
+				case 2:
+					ids := []int{}
+					for id := range acked {
+						ids = append(ids, id)
+					}
+					sort.Ints(ids)
+					if len(ids) > 0 {
+						cops = append(cops, &shOp{kind: "get", id: ids[r.Intn(len(ids))]})
+					}
+				}
+			}
+		}
+		if len(cops) > 0 {
+			var why string
+			err, why = w.overlapSwitch(m, cops)
+			if why != "" {
+				r.Failf("hang", "operations overlapping a mode switch do not finish", "SetMode(%s) from %s with %d overlapping operations: %s", m, prev, len(cops), why)
+			}
+			r.Probe("operations overlap a mode switch")
+		} else {
+			w.exclusive("setmode", func() { err = w.sh.SetMode(m) })
+		}
 		w.mf = modeFaults{}
 		w.exclusive("unhide-meta", func() {
 			if _, e := os.Stat(filepath.Join(w.dir, "meta.hidden")); e == nil {
@@ -365,6 +404,50 @@ func runC43(r *simkit.R) {
 		if err == nil && cur != m {
 			r.Failf("mode", "reported mode differs from the mode just set", "SetMode(%s) succeeded, GetMode reports %s", m, cur)
 		}
+		// operations that overlapped the switch: each is served by the mode before or the mode after
+		if len(cops) > 0 && err == nil {
+			for _, op := range cops {
+				ok := op.err == nil
+				r.Op("  overlapping %s -> %v", op, errS(op.err))
+				var wOld, wNew bool
+				switch op.kind {
+				case "put":
+					wOld, wNew = !prev.ReadOnly(), !cur.ReadOnly()
+				case "mark":
+					wOld, wNew = !prev.ReadOnly() && !prev.NoMetabase(), !cur.ReadOnly() && !cur.NoMetabase()
+				case "get":
+					wOld, wNew = true, true
+					if ok && !bytes.Equal(op.val, w.bin(op.id)) {
+						r.Failf("mode", "read overlapping a mode switch returns wrong bytes", "%s during SetMode(%s->%s)", op, prev, cur)
+					}
+				}
+				if ok != wOld && ok != wNew {
+					r.Failf("mode", fmt.Sprintf("%s overlapping a switch is %s although both the mode before and the mode after %s it", op.kind, acc(ok), map[bool]string{true: "accept", false: "reject"}[wOld]),
+						"%s overlapping SetMode(%s -> %s): %v", op, prev, cur, op.err)
+				}
+				// (a garbage mark placed on the scratch object by an earlier overlapping operation may
+				// still be there: the read-back is only judged in runs without one)
+				for _, o2 := range cops {
+					everMarked = everMarked || o2.kind == "mark"
+				}
+				if op.kind == "put" && ok && !wOld && cur == mode.ReadWrite && !everMarked {
+					// (accepted although the old mode rejects: it was served in read-write mode)
+					var b []byte
+					var e error
+					w.exclusive("overlap-readback", func() { b, e = w.sh.GetBytesWithMetadataLookup(w.addr(op.id)) })
+					if e != nil || !bytes.Equal(b, w.bin(op.id)) {
+						r.Failf("mode", "put acknowledged during a switch to read-write cannot be read", "%s overlapping SetMode(%s -> %s) acknowledged; read: %v", op, prev, cur, e)
+					}
+				}
+			}
+			if !cur.ReadOnly() && !cur.NoMetabase() {
+				w.exclusive("overlap-undo", func() {
+					other := nreg + (1 - (scratch - nreg))
+					_ = w.sh.Delete(w.addr(other).Container(), []oid.ID{w.addr(other).Object()})
+				})
+			}
+		}
+		prev, prevClean = cur, err == nil
 		// probes against the reported mode
 		var perr, gerr, merr error
 		pid := scratch
@@ -471,6 +554,86 @@ func runC43(r *simkit.R) {
 	if halfway > 0 {
 		r.Nontrivial()
 	}
+}
+
+// overlapSwitch runs SetMode(m) and ops as concurrent tasks under the seeded scheduler: the switch
+// parks inside its component sequence (holding the mode lock), operations park at the lock or at
+// their component calls (holding the read lock, the switch then waits for them).
+func (w *shWorld) overlapSwitch(m mode.Mode, ops []*shOp) (serr error, why string) {
+	k := w.k
+	if !k.Drain(5 * time.Minute) {
+		return nil, "background activity does not settle before the switch"
+	}
+	k.Collect()
+	k.SetPass(false)
+	w.gateSwitch = true
+	defer func() { w.gateSwitch = false; k.SetPass(true) }()
+	swDone := false
+	type item struct {
+		name string
+		f    func(*simkit.Task)
+	}
+	items := []item{{"setmode", func(*simkit.Task) { serr = w.sh.SetMode(m); swDone = true }}}
+	for i, op := range ops {
+		items = append(items, item{fmt.Sprintf("overlap%d", i), func(*simkit.Task) { w.exec(op); op.done = true }})
+	}
+	// start order: by default the switch first (it parks in the middle), else an operation first
+	if w.r.Bool(30) {
+		j := 1 + w.r.Intn(len(items)-1)
+		items[0], items[j] = items[j], items[0]
+	}
+	allDone := func() bool {
+		if !swDone {
+			return false
+		}
+		for _, op := range ops {
+			if !op.done {
+				return false
+			}
+		}
+		return true
+	}
+	for step := 0; step < 600; step++ {
+		w.r.Step()
+		k.Quiesce()
+		k.Collect()
+		if allDone() {
+			return serr, ""
+		}
+		var parked []*simkit.Ticket
+		for _, t := range k.Parked() {
+			if simfs.RWEligible(t.Key) {
+				parked = append(parked, t)
+			}
+		}
+		nopt := len(parked)
+		if len(items) > 0 {
+			nopt++
+		}
+		if nopt == 0 {
+			if !k.Pump(3 * time.Minute) {
+				keys := []string{}
+				for _, t := range k.Parked() {
+					keys = append(keys, t.Key)
+				}
+				return serr, fmt.Sprintf("nothing can proceed (switch finished: %v; parked: %s)", swDone, strings.Join(keys, " "))
+			}
+			continue
+		}
+		c := w.r.Intn(nopt)
+		if len(items) > 0 {
+			if c == 0 {
+				w.r.Logf("  start %s", items[0].name)
+				k.Go(items[0].name, items[0].f)
+				items = items[1:]
+				continue
+			}
+			c--
+		}
+		w.r.Logf("  grant %s", parked[c].Key)
+		k.Grant(parked[c], 0)
+	}
+	return serr, "step limit"
 }
 
 func acc(ok bool) string {
